@@ -64,6 +64,49 @@ CLAIMED = {
                 "dispatcher model and predicates judged by TLC on histories of the real dispatcher.", "DESIGN.md §5 C12"),
     "C13": disp("Every multiset of <= 3 job times around two events in every insertion order (heap modelled as heapq's array) plus "
                 "random configurations in the model; the same predicates on real histories.", "DESIGN.md §5 C13"),
+    "C14": dict(
+        engine="RunLifecycle+RtDispatcher",
+        technique="TLA+ specs RunLifecycle.tla (run() lifecycle and TaskGroup, fault enumeration), RtDispatcher.tla (realtime loop with "
+                  "two concurrent pushers and the task pool) and BtDispatcher.tla model-checked with TLC; every lifecycle scenario "
+                  "replayed on the real dispatchers under virtual time; recorded runs judged by TLC (RtTrace.tla: LifeProps/RtProps, "
+                  "DispTrace.tla)",
+        category="fault_enumeration",
+        text="Every exit path x every producer failing in initialize/main/finalize x both dispatchers is enumerated in the model "
+             "(all interleavings of the producer tasks) and executed on the real dispatchers; outcome class, init-before-main, "
+             "finalize-exactly-once, promptness (one-hour handlers must be cancelled) and process-wide logging afterwards are "
+             "judged by TLC on the recorded runs; bounded concurrency and fault isolation on both dispatch loops.",
+        note="Trusted: TLC, the virtual-time loop, the scripted producers/handlers. stop() before run() is outside the quantifier (O3).",
+        design_ref="DESIGN.md §5 C14"),
+    "C15": dict(
+        engine="RtDispatcher",
+        technique="TLA+ spec RtDispatcher.tla model-checked with TLC; seeded random arrival / job / idle-handler scenarios on the "
+                  "real RealtimeDispatcher under a virtual clock judged by TLC (RtTrace.tla: RtProps predicates)",
+        text="Never-early, per-source order, drop-and-report of out-of-order events, idle handlers only when idle are invariants of the "
+             "loop model; on the implementation the same predicates plus bounded-response delivery (every kept item exactly once per "
+             "handler) are evaluated by TLC on recorded histories with the real 10 ms polling.",
+        note="Liveness on the implementation is bounded response under virtual time; the model abstracts to one source and tick time.",
+        design_ref="DESIGN.md §5 C15"),
+    "C18": dict(
+        engine="WsClient",
+        technique="TLA+ spec WsClient.tla (main loop + message/subscribe/reconnect tasks + fault-injecting peer) model-checked with TLC "
+                  "incl. liveness under weak fairness; seeded fault scripts against the real generic, Binance and Bitstamp clients and a "
+                  "scripted peer under virtual time, judged by TLC (WsTrace.tla: WsProps predicates)",
+        text="Safety (routing, backoff, pending channels always have a wake-up) and liveness (pending channel on a live connection gets "
+             "subscribed; convergence once the peer is quiet) on the model; bounded-response versions, keep-alive cadence of Binance "
+             "listen keys, routing and backoff on recorded runs of the three real clients.",
+        note="aiohttp's websocket is a scripted fake (ws_connect / async iteration / closed / close / send_str); liveness on the "
+             "implementation is bounded response (1 s virtual).",
+        design_ref="DESIGN.md §5 C18"),
+    "C19": dict(
+        engine="TradesToBar+CsvBars",
+        technique="TLA+ spec TradesToBar.tla model-checked with TLC; simulated behaviours replayed on the real RealTimeTradesToBar.main() "
+                  "under a virtual clock (exact equality); random trade streams and random CSV files (10 encodings, 3 source classes) "
+                  "judged by TLC (BarsTrace.tla: TradesToBarCore / CsvBars predicates)",
+        text="Exactly-one-bar, OHLCV, in-order acceptance and emission at window end are invariants over every schedule of pushes, "
+             "ticks and flushes in the model; tick positions map to microsecond offsets around the last millisecond of a window; CSV "
+             "rows-to-events is a TLA+ function the recorded events must equal.",
+        note="Yahoo rows always carry non-zero volume in the generator (that source does not skip zero-volume rows).",
+        design_ref="DESIGN.md §5 C19"),
     "C20": dict(
         engine="TokenBucket",
         technique="TLA+ spec (TokenBucket.tla) model-checked with TLC; every terminal TLC behaviour replayed into the real "
